@@ -19,6 +19,63 @@ from simphot.kernel import VERIF, derive, execute, load_known, summarize
 _MACHINE = None
 
 
+WARM_MODULES = [
+    'photutils.aperture', 'photutils.background', 'photutils.centroids',
+    'photutils.datasets', 'photutils.detection', 'photutils.isophote',
+    'photutils.morphology', 'photutils.profiles', 'photutils.psf',
+    'photutils.segmentation', 'photutils.utils', 'photutils.psf.matching',
+    'skimage.segmentation', 'rasterio.features', 'shapely',
+    'shapely.geometry', 'matplotlib.colors', 'matplotlib.patches',
+    'matplotlib.pyplot', 'regions', 'scipy.ndimage', 'scipy.interpolate',
+    'scipy.optimize', 'scipy.spatial', 'scipy.signal', 'scipy.special',
+    'astropy.modeling.fitting', 'astropy.modeling.models',
+    'astropy.convolution', 'astropy.wcs', 'astropy.nddata', 'astropy.stats',
+    'astropy.table', 'astropy.coordinates', 'astropy.units',
+    'astropy.wcs.utils', 'astropy.visualization', 'bottleneck',
+    'concurrent.futures.process', 'multiprocessing.queues', 'pickle',
+]
+
+
+def warm_imports():
+    """Import (only import) everything the machines import lazily, in the
+    batch's main process, so that the forked per-run children do not repeat
+    the imports.  No photutils code runs here, so no library state is
+    created that a fresh replay process would lack."""
+    import importlib
+    for name in WARM_MODULES:
+        try:
+            importlib.import_module(name)
+        except Exception:  # noqa: BLE001 - optional dependency missing
+            pass
+    for pid, variants in VARIANTS.items():
+        for key, _ in variants:
+            try:
+                get_machine(key)
+            except Exception:  # noqa: BLE001
+                pass
+
+
+_WARMED = set()
+
+
+def warm_run(key, n=3):
+    """Execute a fixed, seed-independent warm-up (n short runs of the
+    machine) in the current process.  Every batch main process (whose forked
+    children execute the runs) and every replay process does exactly this
+    before anything else, so "a fresh process" means the same thing
+    everywhere; it fills the lazy caches of numpy / astropy / scipy that
+    would otherwise be rebuilt in every isolated run."""
+    if key in _WARMED:
+        return
+    _WARMED.add(key)
+    m = get_machine(key)
+    for j in range(n):
+        try:
+            kernel.run_seed(m, derive('warmup', key, j))
+        except Exception:  # noqa: BLE001
+            pass
+
+
 def _init_worker():
     os.environ.setdefault('OMP_NUM_THREADS', '1')
     faulthandler.enable()
@@ -144,6 +201,7 @@ def run_variant(key, base_seed, budget_s, max_runs, workers, agg, known,
                 chunk=4, shrink_budget=200, run_timeout=120,
                 avoid_frac=70, ops_scale=1.0):
     """Run seeds of one machine variant until the time budget is used."""
+    warm_run(key)
     ctx = mp.get_context('fork')
     t_end = time.time() + budget_s
     next_index = 0
@@ -215,6 +273,8 @@ def replay_file(path, verbose=True):
     """Re-execute a replay file; returns (reproduced?, result)."""
     with open(path) as fh:
         doc = json.load(fh)
+    warm_imports()
+    warm_run(doc['machine_key'])
     machine = get_machine(doc['machine_key'])
     res = execute(machine, doc['plan'])
     want = doc['violation']
@@ -243,6 +303,7 @@ def replay_fresh(path):
 
 def run_property(pid, tier, base_seed, workers=16, budget_override=None,
                  max_runs=10 ** 9, out_dir=None, only=None):
+    warm_imports()
     t0 = time.time()
     known_all, fixed = load_known()
     known = [k for k in known_all if k.get('property') == pid]
@@ -278,28 +339,44 @@ def run_property(pid, tier, base_seed, workers=16, budget_override=None,
         rec = next(k for k in known if k['id'] == kid)
         lines.append(f'KNOWN-FINDING: property={pid} {kid}: {rec["what"]} '
                      f'(matched by {len(lst)} minimised histories)')
-    reported = set()
+    # One replay per violation class (at most five classes); the rest is
+    # counted in the evidence.  A minimised plan must reproduce in a fresh
+    # process before it is reported; when it does not (state that leaked
+    # into this worker from an earlier run of the batch), further
+    # counter-examples of the same class are tried before the class is
+    # declared a harness error.
+    reported, tried, failed = set(), {}, {}
     for key, res in agg.violations:
         cls = (res['min_violation']['invariant'],
                res['min_violation']['subject'])
-        if cls in reported or len(reported) >= 5:
-            # one replay per violation class (at most five classes) is
-            # enough; the rest is counted in the evidence
+        if cls in reported or tried.get(cls, 0) >= 4:
             continue
-        reported.add(cls)
+        if cls not in tried and len(tried) >= 5:
+            continue
+        tried[cls] = tried.get(cls, 0) + 1
         path = write_replay(pid, res)
         ok, out = replay_fresh(path)
         if ok:
+            reported.add(cls)
+            failed.pop(cls, None)
             lines.append(f'VIOLATION property={pid} replay={path}')
             v = res['min_violation']
             lines.append(f'  {v["invariant"]}[{v["subject"]}] {v["detail"]}')
             exit_code = 1
         else:
-            agg.harness.append((key, {
-                'verdict': 'HARNESS', 'seed': res['seed'],
-                'error': 'minimised plan did not reproduce in a fresh '
-                         'process (simulator nondeterminism)\n' + out}))
-            agg.verdicts['HARNESS'] += 1
+            try:
+                os.remove(path)
+            except OSError:
+                pass
+            failed[cls] = (key, res, out)
+    for cls, (key, res, out) in failed.items():
+        agg.harness.append((key, {
+            'verdict': 'HARNESS', 'seed': res['seed'],
+            'error': f'{tried[cls]} minimised plan(s) of class {cls} did '
+                     'not reproduce in a fresh process (state shared '
+                     'between runs of one worker process, or simulator '
+                     'nondeterminism)\n' + out}))
+        agg.verdicts['HARNESS'] += 1
     if fidelity and fidelity.get('mismatches'):
         # the real pool disagrees with the serial path: a genuine violation
         # of schedule independence observed on an uncontrolled schedule
